@@ -59,7 +59,28 @@ func prepareC03(b *built, overlay map[string]string, h hash.Hash) []RewriteSpec 
 	}
 	b.env = append(b.env, "VERIF_C03_META="+meta, "VERIF_C03_V="+filepath.Join(vout, "vscratch", "prog.v"), "VERIF_C03_GOOSE_ERR="+errFile)
 	overlay[filepath.Join(verifDir, "drivers/c03drv/prog/registry.go")] = regFile
+	// probe shapes: programs the shipped goose rejects; translated leniently
+	ppkg := filepath.Join(mod, "probe")
+	os.MkdirAll(ppkg, 0755)
+	pb := c03gen.GenerateProbe(b.genSeed, 24)
+	os.WriteFile(filepath.Join(ppkg, "probe.go"), []byte(pb.Source), 0644)
+	os.WriteFile(filepath.Join(ppkg, "registry.go"), []byte(pb.RegistryFor("probe")), 0644)
+	pregFile := filepath.Join(b.work, "gen", "probe_registry.go")
+	os.WriteFile(pregFile, []byte(pb.RegistryFor("probe")), 0644)
+	pmeta := filepath.Join(b.work, "c03-probe-meta.json")
+	pj, _ := json.Marshal(pb)
+	os.WriteFile(pmeta, pj, 0644)
+	ptr := exec.Command(goose, "-ignore-errors", "-out", vout, "-dir", mod, "./probe")
+	ptr.Env = goEnv()
+	pout, _ := ptr.CombinedOutput()
+	os.WriteFile(filepath.Join(b.work, "goose-probe.err"), []byte(stripANSI(string(pout))), 0644)
+	b.env = append(b.env, "VERIF_C03_PROBE_META="+pmeta, "VERIF_C03_PROBE_V="+filepath.Join(vout, "vscratch", "probe.v"))
+	overlay[filepath.Join(verifDir, "drivers/c03drv/probe/registry.go")] = pregFile
+	rwOpt := rewrite.Options{Imports: map[string]string{"sync": "verif/simsync", "github.com/goose-lang/goose/machine": "verif/simmachine"}, Yields: true, GoStmt: true}
 	return []RewriteSpec{{
+		Dir: ppkg, Files: []string{"probe.go"}, Opt: rwOpt,
+		OverlayAs: filepath.Join(verifDir, "drivers/c03drv/probe/probe.go"),
+	}, {
 		Dir: pkg, Files: []string{"prog.go"},
 		Opt: rewrite.Options{Imports: map[string]string{"sync": "verif/simsync", "github.com/goose-lang/goose/machine": "verif/simmachine"},
 			Yields: true, GoStmt: true},
